@@ -704,6 +704,18 @@ func c25Put(es []c25Ent, ne c25Ent) []c25Ent {
 }
 
 func c25Bytes(num int, b []byte) c25Ent { return c25Ent{num: num, wt: 2, b: b} }
+
+// c25PadTo returns an unknown field (number 15, wire type 2) that brings a message of cur bytes to
+// exactly target bytes, if one exists.
+func c25PadTo(cur, target int) (c25Ent, bool) {
+	for _, lenBytes := range []int{1, 2} {
+		l := target - cur - 1 - lenBytes
+		if (lenBytes == 1 && l >= 0 && l <= 127) || (lenBytes == 2 && l >= 128 && l <= 16383) {
+			return c25Bytes(15, bytes.Repeat([]byte{0xaa}, l)), true
+		}
+	}
+	return c25Ent{}, false
+}
 func c25Int(num int, v uint64) c25Ent   { return c25Ent{num: num, wt: 0, v: v} }
 
 var c25Masks = []byte{0x01, 0x02, 0x04, 0x08, 0x10, 0x20, 0x40, 0x80, 0xff}
@@ -886,12 +898,10 @@ func (u *c25Uni) realise(attr string, create c25Step, st c25Step, es []c25Ent, b
 	case "Pad":
 		cur := len(c25Enc(es))
 		for _, extra := range []int{1, 1000} {
-			// unknown field 15 (wt 2): tag 1 byte + 2-byte length + payload
-			want := 10240 + extra - cur - 3
-			if want < 128 {
+			pad, ok := c25PadTo(cur, 10240+extra)
+			if !ok {
 				continue
 			}
-			pad := c25Bytes(15, bytes.Repeat([]byte{0xaa}, want))
 			add(fmt.Sprintf("unknown-field-to-%d", 10240+extra), append(c25Clone(es), pad))
 			if extra == 1 {
 				vs = append(vs, c25Var{name: "in-memory-unknown-to-10241", es: es, mem: pad.enc(nil)})
@@ -934,6 +944,10 @@ func (u *c25Uni) realise(attr string, create c25Step, st c25Step, es []c25Ent, b
 			for i := len(es) - 1; i >= 0; i-- {
 				rev = append(rev, es[i])
 			}
+			// descending field numbers, occurrences of one field keep their relative order (last still wins)
+			desc := c25Clone(es)
+			sort.SliceStable(desc, func(a, b int) bool { return desc[a].num > desc[b].num })
+			add("descending-stable", desc)
 			// reversing is only a re-encoding if no field is duplicated
 			seen := map[int]bool{}
 			dup := false
@@ -966,11 +980,11 @@ func (u *c25Uni) realise(attr string, create c25Step, st c25Step, es []c25Ent, b
 			add("padded-varints", nes)
 		case "padToLimit":
 			cur := len(c25Enc(es))
-			want := 10240 - cur - 3
-			if want >= 128 {
-				pad := c25Bytes(15, bytes.Repeat([]byte{0xaa}, want))
+			if pad, ok := c25PadTo(cur, 10240); ok {
 				add("unknown-field-to-10240", append(c25Clone(es), pad))
 				vs = append(vs, c25Var{name: "in-memory-unknown-to-10240", es: es, mem: pad.enc(nil)})
+			} else {
+				add("already-at-or-over-the-limit", es)
 			}
 		}
 	}
@@ -1023,11 +1037,11 @@ func (u *c25Uni) checkVariant(b *c25Beh, v c25Var) (matched bool, fail *c25Fail)
 			// in-memory path: the size check of Validate itself (UnmarshalRecord never sees the padding)
 			rec, err := UnmarshalRecord(raw)
 			if err != nil {
-				return true, &c25Fail{what: "harness: cannot unmarshal unpadded record: " + err.Error(), harn: true}
+				return false, nil // this realisation needs a record that unmarshals without the padding
 			}
 			rec.pb.ProtoReflect().SetUnknown(v.mem)
 			if proto.Size(rec.pb) != len(full) {
-				return true, &c25Fail{what: "harness: in-memory padding size", harn: true}
+				return false, nil // non-canonical encoding underneath: in-memory size is not the wire size
 			}
 			got[0] = Validate(rec, u.keys[n].pk) == nil
 			got[1] = ValidateWithName(rec, u.keys[n].name) == nil
@@ -1086,7 +1100,22 @@ func (u *c25Uni) replayOne(b *c25Beh, bud c25Budget, lastAll bool) (evals int, f
 	if !bytes.Equal(c25Enc(es0), base) {
 		return 0, &c25Fail{what: "harness: wire codec does not round-trip the library's encoding", harn: true}
 	}
-	steps := b.Steps[1:]
+	// the size flag is independent of every other field of the symbolic record, so padding steps
+	// commute with the others: apply them last (pad-to-limit before pad-over-limit)
+	var steps []c25Step
+	for pass := 0; pass < 3; pass++ {
+		for _, st := range b.Steps[1:] {
+			p := 0
+			if st.Op == "ReEncode" && st.S == "padToLimit" {
+				p = 1
+			} else if st.Op == "Pad" {
+				p = 2
+			}
+			if p == pass {
+				steps = append(steps, st)
+			}
+		}
+	}
 	if len(steps) == 0 {
 		m, f := u.checkVariant(b, c25Var{name: "library-made", es: es0})
 		if !m {
